@@ -68,7 +68,16 @@ def canon_dest(md, x, mode, frontend, doc_side):
         return x
     if scheme in ("inv", "path", "project"):
         return None
-    return x if frontend == "docutils" else None
+    if frontend == "docutils":
+        return x
+    # Sphinx rewrites destinations that name an existing file of the project (document name, download); any other
+    # destination is handed on as written (percent-decoded), fragment included
+    from urllib.parse import unquote
+
+    path_part = unquote(x).split("#", 1)[0]
+    if scheme is None and path_part not in ("", ".", "index.md", "index", "./index.md"):
+        return unquote(x)
+    return None
 
 
 def canon(md, sk, mode, frontend, doc_side):
